@@ -450,6 +450,8 @@ pub enum XOp {
 	ResolveCut { pay: u16, claim: bool, cut_at: u8, reconnect: bool },
 	/// mine empty blocks (HTLC timeouts)
 	MineMany { blocks: u8 },
+	/// `ticks` timer ticks at S (retry / abandon bookkeeping, removal of completed payments after a few ticks)
+	TimerS { ticks: u8 },
 }
 
 #[derive(Clone, Debug)]
@@ -468,6 +470,7 @@ pub struct XWeights {
 	pub restart: u32,
 	pub resolve_cut: u32,
 	pub mine_many: u32,
+	pub timer_s: u32,
 }
 
 pub fn xop_strategy(w: XWeights) -> BoxedStrategy<XOp> {
@@ -476,7 +479,7 @@ pub fn xop_strategy(w: XWeights) -> BoxedStrategy<XOp> {
 		b.send + b.claim + b.fail + b.deliver + b.flush + b.events + b.forwards + b.disconnect + b.reconnect + b.setfee + b.timer + b.async_toggle + b.complete + b.pump + b.force_close + b.tamper_revoke + b.mine + b.reorg + b.set_style + b.snapshot + b.restart
 	};
 	let mut v: Vec<(u32, BoxedStrategy<XOp>)> = vec![
-		(base_total, op_strategy(w.base.clone()).prop_map(XOp::Base).boxed()),
+		(base_total, if base_total > 0 { op_strategy(w.base.clone()).prop_map(XOp::Base).boxed() } else { Just(XOp::SnapshotS).boxed() }),
 		(w.send_route, (any::<u16>(), amt_strategy()).prop_map(|(route, amt)| XOp::SendRoute { route, amt, tweak: 0 }).boxed()),
 		(w.underpay, (any::<u16>(), amt_strategy(), 1u8..=2).prop_map(|(route, amt, tweak)| XOp::SendRoute { route, amt, tweak }).boxed()),
 		(w.mpp, (any::<u16>(), amt_strategy(), any::<u16>()).prop_map(|(shape, amt, split)| XOp::SendMpp { shape, amt, split }).boxed()),
@@ -490,6 +493,7 @@ pub fn xop_strategy(w: XWeights) -> BoxedStrategy<XOp> {
 		(w.restart, (prop_oneof![Just(0u16), 0u16..4, any::<u16>()], any::<bool>(), any::<bool>()).prop_map(|(snap, landed, fresh)| XOp::RestartS { snap, landed, fresh }).boxed()),
 		(w.resolve_cut, (any::<u16>(), proptest::bool::weighted(0.65), 0u8..8, proptest::bool::weighted(0.8)).prop_map(|(pay, claim, cut_at, reconnect)| XOp::ResolveCut { pay, claim, cut_at, reconnect }).boxed()),
 		(w.mine_many, prop_oneof![1u8..12, 10u8..90].prop_map(|blocks| XOp::MineMany { blocks }).boxed()),
+		(w.timer_s, prop_oneof![Just(1u8), 1u8..10].prop_map(|ticks| XOp::TimerS { ticks }).boxed()),
 	];
 	v.retain(|(w, _)| *w > 0);
 	proptest::strategy::Union::new_weighted(v).boxed()
@@ -908,6 +912,12 @@ impl C03 {
 					},
 					Err(_) => "restart-failed",
 				}
+			},
+			XOp::TimerS { ticks } => {
+				for _ in 0..*ticks {
+					sim.timer_tick(S);
+				}
+				"timer-s"
 			},
 			XOp::MineMany { blocks } => {
 				sim.c03_fast_forward(*blocks as u32);
